@@ -18,9 +18,9 @@ use vharness::project::{compile, CompileResult, Project};
 use vharness::util::*;
 
 // index order must equal SyltDiag!Kinds / Files / Poss / Shapes
-const KINDS: [&str; 13] = [
+const KINDS: [&str; 14] = [
     "syn_rparen", "syn_char", "unresolved", "dup_global", "const_local", "const_global", "const_param",
-    "op_mismatch", "arg_mismatch", "annot_mismatch", "break_outside", "conflict", "dup_import",
+    "op_mismatch", "arg_mismatch", "annot_mismatch", "break_outside", "conflict", "dup_import", "dup_from_import",
 ];
 const FILES: [&str; 3] = ["main", "sibling", "sub"];
 const POSS: [&str; 5] = ["top_first", "top_mid", "top_last", "fn_body", "if_branch"];
@@ -43,7 +43,7 @@ fn is_top(pos: &str) -> bool {
 
 fn applicable(kind: &str, pos: &str) -> bool {
     match kind {
-        "dup_global" | "dup_import" => is_top(pos), // a global can only be defined at the top level
+        "dup_global" | "dup_import" | "dup_from_import" => is_top(pos), // a global can only be defined at the top level
         "const_local" => !is_top(pos), // a one-line function cannot hold a definition and an assignment
         _ => true,
     }
@@ -70,6 +70,7 @@ fn construct(kind: &str, top: bool) -> &'static str {
         ("break_outside", true) => "pf :: fn do break end",
         ("conflict", _) => "<<<<<<< HEAD",
         ("dup_import", _) => "leaf :: 7",
+        ("dup_from_import", _) => "lw :: 7",
         _ => tool_error("unknown kind"),
     }
 }
@@ -135,12 +136,13 @@ fn template(file: &str, depth: usize, inserts: &[(Place, Line)]) -> Vec<Line> {
     };
     put(&mut out, Place::TopFirst, 0);
     out.push(ln(0, "use /leaf"));
+    out.push(ln(0, "from /leaf use lv as lw"));
     if file == "main" {
         out.push(ln(0, "use other"));
         out.push(ln(0, "use sub/inner"));
     }
     out.push(ln(0, "ga :: 1"));
-    out.push(ln(0, "gb := leaf.lv"));
+    out.push(ln(0, "gb := leaf.lv + lw"));
     put(&mut out, Place::TopMid, 0);
     out.push(ln(0, "helper :: fn a: int, b: int -> int do"));
     out.push(ln(1, "c :: a + b"));
@@ -217,10 +219,10 @@ struct Case {
 fn case_at(idx: usize) -> Case {
     // same mixed-radix layout as SyltDiag!Case: kind fastest, then file, position, shape
     let m = idx - 1;
-    let kind = KINDS[m % 13];
-    let file = FILES[(m / 13) % 3];
-    let pos = POSS[(m / 39) % 5];
-    let shape = SHAPES[(m / 195) % 9];
+    let kind = KINDS[m % 14];
+    let file = FILES[(m / 14) % 3];
+    let pos = POSS[(m / 42) % 5];
+    let shape = SHAPES[(m / 210) % 9];
     let shapes = if shape_line(shape, 1).is_some() { vec![(pos.to_string(), shape.to_string())] } else { vec![] };
     Case {
         idx,
@@ -235,7 +237,7 @@ fn case_at(idx: usize) -> Case {
     }
 }
 
-const N_CROSS: usize = 13 * 3 * 5 * 9;
+const N_CROSS: usize = 14 * 3 * 5 * 9;
 
 fn case_json(c: &Case) -> Value {
     json!({"idx": c.idx, "kind": c.kind, "file": c.file, "pos": c.pos, "depth": c.depth, "shape": c.shape,
